@@ -112,9 +112,31 @@ func c16Write(root string, idx int, dirSpellings []string, lastMissing bool, ven
 	s2 := takeSnap(base)
 	d2 := diffSnap(s1, s2)
 	p3, _ := hx.Guard(func() { r2err = cache.RemoveSpec(name) })
+	// the same Spec under the same name once more, with no refresh since the removal: the file must be there again, with
+	// the same content; and written over foreign content at that path it must restore its own content
+	var again []string
+	{
+		s3 := takeSnap(base)
+		_, _ = hx.Guard(func() { _ = cache.WriteSpec(spec, name) })
+		s4 := takeSnap(base)
+		d4 := diffSnap(s3, s4)
+		again = append(again, d4.FilesChanged...)
+		if len(d1.FilesChanged) == 1 && len(d4.FilesChanged) == 1 && s4[d4.FilesChanged[0]] != s1[d1.FilesChanged[0]] {
+			again = append(again, "<content differs from the first write>")
+		}
+		if len(d4.FilesChanged) == 1 {
+			target := d4.FilesChanged[0]
+			_ = os.WriteFile(target, []byte("foreign content, not a Spec"), 0o644)
+			_, _ = hx.Guard(func() { _ = cache.WriteSpec(spec, name) })
+			if takeSnap(base)[target] != s4[target] {
+				again = append(again, "<foreign>")
+			}
+			_ = os.Remove(target)
+		}
+	}
 	other := append(append(append([]string{}, d2.FilesChanged...), d2.DirsCreated...), d2.DirsDeleted...)
 	obs := hx.C("mkWobs", hx.B(werr != nil || p), hx.LS(d1.FilesChanged), hx.LS(append(d1.FilesDeleted, d1.DirsDeleted...)), hx.LS(d1.DirsCreated), hx.B(isJSON),
-		hx.L(resolved), hx.B(rerr != nil || p2), hx.LS(d2.FilesDeleted), hx.LS(other), hx.B(r2err != nil || p3))
+		hx.L(resolved), hx.B(rerr != nil || p2), hx.LS(d2.FilesDeleted), hx.LS(other), hx.B(r2err != nil || p3), hx.LS(again))
 	rel := func(l []string) []string {
 		o := make([]string, len(l))
 		for i, x := range l {
